@@ -150,7 +150,31 @@ def isolated(notes):
     c.play_Note(mk_note(notes[0]))
     return [leak_ab, len(oa.trace) - na, len(ob.trace) - leak_ab[0] - len(notes), [len(oa.trace) - na, len(c.trace)]]
 
-IMPL = {"seq.run": run, "seq.isolated": isolated}
+def kept_messages(notes):
+    """a plain observer (notify(msg_type, params)) that KEEPS the message it is handed, as a recording observer does: what it
+    holds at the end must still be what it was handed"""
+    from mingus.midi.sequencer import Sequencer
+    from mingus.containers import Note, NoteContainer
+    def snap(params):
+        return sorted((k, v if isinstance(v, (int, float, str)) or v is None else type(v).__name__) for k, v in params.items())
+    class Keep(object):
+        def __init__(self): self.kept = []
+        def notify(self, msg_type, params): self.kept.append((msg_type, params, snap(params)))
+    s = Sequencer(); k = Keep(); s.attach(k)
+    for n in notes:
+        x = Note(n[0], n[1]); x.channel = n[2]; x.velocity = n[3]
+        s.play_Note(x); s.stop_Note(x)
+    nc = NoteContainer([Note(n[0], n[1]) for n in notes])
+    s.play_NoteContainer(nc, 3); s.stop_NoteContainer(nc, 3)
+    s.control_change(2, 7, 100); s.set_instrument(1, 5)
+    changed = []
+    for i, (mt, params, was) in enumerate(k.kept):
+        now = snap(params)
+        if now != was:
+            changed.append([i, str(mt), str(was), str(now)])
+    return [len(k.kept), changed[:4]]
+
+IMPL = {"seq.run": run, "seq.isolated": isolated, "seq.kept": kept_messages}
 
 PARALLEL = ("bars", "tracks", "composition")
 
@@ -245,6 +269,8 @@ def cases(tier, rng):
     for c, v in ((7, F(257, 2)), (7, F(-1, 2)), (F(257, 2), 64), (F(-1, 4), 64), (F(513, 4), F(513, 4)), (7, F(1025, 8))):
         out.append(S([["attach", 0], ["cc", 3, c, v]], "cc/fractional", model=False))
     out.append(Case("seq.isolated", [[A, B]], tag="instances", model=False))
+    out.append(Case("seq.kept", [[A, B]], tag="observer:kept-messages", model=False))
+    out.append(Case("seq.kept", [[["C", 4, 1, 64], ["Bb", 2, 9, 127], ["F#", 6, 15, 1]]], tag="observer:kept-messages", model=False))
     body = [["play_note", A], ["stop_note", A], ["instr", 2, 42, 0], ["cc", 1, 7, 100]]
     out.append(S(body, "observer:none"))
     out.append(S([["attach", 0]] + body, "observer:attached"))
@@ -489,6 +515,12 @@ def first_diff(a, b):
     return ("%d events" % len(a), "%d events" % len(b))
 
 def oracle(c, obs):
+    if c["fn"] == "seq.kept":
+        if isinstance(obs, Err):
+            return "raised %s" % obs.name
+        if obs[0] == 0:
+            return "the attached observer received nothing"
+        return None if obs[1] == [] else "a message an observer was handed changed after delivery (message index, type, then, now): %s" % obs[1][:2]
     if c["fn"] == "seq.isolated":
         if isinstance(obs, Err):
             return "two sequencers side by side raised %s" % obs.name
